@@ -200,13 +200,14 @@ class Run(object):
             bz = sorted(self.cid(x) for x in hp.busy)
             rd = sorted(self.cid(x) for x in hp.ready)
             for x in tuple(hp.ready) + tuple(hp.busy):
-                if x.closed():
+                # (dead: what the connection says of itself, or what the environment knows - it ended that connection)
+                if x.closed() or self.cid(x) in getattr(self, 'ended_by_peer', ()):
                     dead.add(self.cid(x))
             w = getattr(pool, '_host_pool_waiters', {}).get(self.keyt(k), 0)
             lk = bool(getattr(getattr(hp, '_lock', None), 'locked', lambda: False)())
             ps.append({'pr': True, 'rd': rd, 'bz': bz, 'w': max(w, 0), 'lk': lk, 'wneg': w < 0})
         for x in self.conn_of.values():
-            if x.closed():
+            if x.closed() or self.cid(x) in getattr(self, 'ended_by_peer', ()):
                 dead.add(self.cid(x))
         gl = bool(getattr(getattr(pool, '_host_pools_lock', None), 'locked', lambda: False)())
         return {'p': ps, 'dd': sorted(dead), 'gl': gl}
